@@ -160,6 +160,7 @@ func runC12(r *core.Run) {
 		{"inline", core.AInline, 4, 5, []string{"core", "all+cjk+attr+autoid+unsafe"}},
 		{"ext", core.AExt, 4, 5, []string{"all+cjk+attr+autoid", "gfm+unsafe"}},
 		{"block", core.Union(core.ABlock, []string{"\t", "{#a}", "[a]:", "[A]"}), 4, 5, []string{"all+cjk+attr+autoid"}},
+		{"tab", core.ATab, 4, 5, []string{"all+cjk+attr+autoid"}},
 	}
 	for _, j := range jobs {
 		for _, cn := range j.cfgs {
